@@ -126,6 +126,54 @@ def run(tier, seed):
                                 if bad:
                                     mm_val.append({"cls": cls.__name__, "mask": mask, "dims": dims, "what": bad,
                                                    "model": m[0], "impl": flat(y[b])})
+    # ---- a layer restored from another layer's state (same split sizes, another pattern: the two alternating masks of a
+    # RealNVP stack): the two index sets still partition the features, the restored layer splits as its donor does, and the
+    # identity half passes through it unchanged
+    for pa, pb in (((0, 1, 0, 1), (1, 0, 1, 0)), ((1, 0, 1, 0), (0, 1, 0, 1)), ((1, 1, 0, 0, 1), (0, 1, 0, 1, 1)), ((0, 1, 1), (1, 1, 0)),
+                   ((1, 0, 1, 1, 0, 0), (0, 1, 0, 1, 0, 1))):
+        for cls, kw in ((cp.AdditiveCouplingTransform, {}), (cp.AffineCouplingTransform, {"scale_activation": (lambda v: v + 3.0)})):
+            donor = cls(mask_values(pa), lambda i, o: RecNet(i, o), **kw)
+            t = cls(mask_values(pb), lambda i, o: RecNet(i, o), **kw)
+            ck.case(("restored", cls.__name__, pa, pb), nontrivial=True)
+            case = {"search": "restored-layer", "cls": cls.__name__, "donor": list(pa), "own": list(pb)}
+            r = attempt(t.load_state_dict, donor.state_dict())
+            if r[0] != "ok":
+                ck.count("restored-layer-load-raises")
+                continue
+            idf, trf = t.identity_features.tolist(), t.transform_features.tolist()
+            if sorted(idf + trf) != list(range(len(pa))):
+                ck.finding("coupling:index-sets-do-not-partition:restored:%s" % cls.__name__,
+                           "a layer built with mask %s and loaded from a layer with mask %s has identity %s / transformed %s" % (pb, pa, idf, trf), case)
+                continue
+            x = (torch.arange(2 * len(pa), dtype=torch.float64).reshape(2, len(pa)) % 7) + 1
+            r = attempt(t, x)
+            rd = attempt(donor, x)
+            if r[0] != "ok" or rd[0] != "ok":
+                continue
+            if not torch.equal(r[1][0][:, idf], x[:, idf]):
+                ck.finding("coupling:identity-features-changed:restored:%s" % cls.__name__, "restored layer, masks %s <- %s" % (pb, pa), case)
+            if [idf, trf] == [donor.identity_features.tolist(), donor.transform_features.tolist()] and not torch.equal(r[1][0], rd[1][0]):
+                ck.finding("coupling:restored-layer-differs-from-donor:%s" % cls.__name__, "masks %s <- %s" % (pb, pa), case)
+            ri = attempt(t.inverse, r[1][0])
+            if ri[0] != "ok" or not torch.equal(ri[1][0], x):
+                ck.finding("coupling:inverse-does-not-undo-forward:restored:%s" % cls.__name__, "masks %s <- %s" % (pb, pa), case)
+    # ... and the layers built AFTER those loads (and the donors, which were only read) still split as their own masks say: a
+    # layer's index buffers are its own, not shared with the layers that were loaded
+    for pa, pb in (((0, 1, 0, 1), (1, 0, 1, 0)), ((1, 1, 0, 0, 1), (0, 1, 0, 1, 1)), ((0, 1, 1), (1, 1, 0)), ((1, 0, 1, 1, 0, 0), (0, 1, 0, 1, 0, 1))):
+        first = cp.AdditiveCouplingTransform(mask_values(pb), lambda i, o: RecNet(i, o))
+        donor = cp.AdditiveCouplingTransform(mask_values(pa), lambda i, o: RecNet(i, o))
+        loaded = cp.AdditiveCouplingTransform(mask_values(pb), lambda i, o: RecNet(i, o))
+        attempt(loaded.load_state_dict, donor.state_dict())
+        later = cp.AffineCouplingTransform(mask_values(pb), lambda i, o: RecNet(i, o), scale_activation=(lambda v: v + 3.0))
+        ck.case(("after-load", pa, pb), nontrivial=True)
+        for who, lay, pat in (("a layer built before the load", first, pb), ("the donor", donor, pa), ("a layer built after the load", later, pb)):
+            want = [[i for i, m_ in enumerate(pat) if m_ <= 0], [i for i, m_ in enumerate(pat) if m_ > 0]]
+            got = [lay.identity_features.tolist(), lay.transform_features.tolist()]
+            if got != want:
+                ck.finding("coupling:index-buffers-shared-between-layers",
+                           "after a layer with mask %s was loaded from a layer with mask %s, %s (mask %s) has identity %s / transformed %s"
+                           % (pb, pa, who, pat, got[0], got[1]), {"search": "after-load", "donor": list(pa), "own": list(pb), "who": who})
+                break
     ck.sample({"mask": mask_values((0, 1, 0, 1)), "model_idx": drv.call("idx", Z([0, 2, -2, 6])) if drv else None})
     if drv is not None:
         ck.correspondence("identity/transform index buffers", n_idx, mm_idx)
